@@ -21,6 +21,7 @@ mod c10;
 mod c11;
 mod c12;
 mod c13;
+mod c14;
 mod ir;
 mod cli;
 mod clicheck;
@@ -72,6 +73,7 @@ fn main() {
         "C11" => "C11",
         "C12" => "C12",
         "C13" => "C13",
+        "C14" => "C14",
         "C17" => "C17",
         "C20" => "C20",
         _ => usage(),
@@ -91,6 +93,7 @@ fn main() {
         "C11" => c11::run(&ctx),
         "C12" => c12::run(&ctx),
         "C13" => c13::run(&ctx),
+        "C14" => c14::run(&ctx),
         "C17" => c17::run(&ctx),
         "C20" => c20::run(&ctx),
         _ => unreachable!(),
@@ -123,6 +126,7 @@ fn replay(path: &str) -> i32 {
         "c11" | "c11-comments" => c11::replay(&v),
         "c12" => c12::replay(&v),
         "c13" => c13::replay(&v),
+        "c14" => c14::replay(&v),
         "cli" => clicheck::replay(&v),
         "c08" => c08::replay(&v),
         _ => Err(format!("unknown replay kind '{}'", kind)),
